@@ -313,17 +313,23 @@ func newWorld(outPath string, seed int64, nkeys int, splits []int) *World {
 func (w *World) reset(info M, splits []int) {
 	for _, c := range w.clients {
 		c.gate.dead.Store(true)
+	}
+	// no request is being executed while the store is swapped; whoever arrives afterwards belongs to an older epoch
+	w.exec.Lock()
+	w.epoch++
+	w.backend(splits)
+	w.exec.Unlock()
+	for _, c := range w.clients {
 		c.store.Close()
 	}
 	w.clients = map[string]*Client{}
-	w.backend(splits)
 	w.splitAt = map[int]bool{}
 	w.prio = nil
 	if w.rng.Intn(2) == 0 {
 		w.prio = map[string]int{}
 	}
 	w.rpcs = 0
-	w.epoch++
+
 	for _, s := range splits {
 		w.splitAt[s] = true
 	}
@@ -620,7 +626,16 @@ func (g *Gate) SendRequest(ctx context.Context, addr string, req *tikvrpc.Reques
 		w.rec.emit(M{"ev": "rpc", "client": g.name, "idx": idx, "cmd": req.Type.String(), "fault": act.kind, "executed": false, "req": reqSummary(req), "resp": M{"kind": "region_error"}})
 		return tikvrpc.GenRegionErrorResp(req, regionErr(act.kind, req))
 	}
+	// summarised before the store sees the request: unistore runs in process and rewrites some of its fields in place
+	// (min-commit-ts, and the async-commit / 1PC flags when it falls back)
+	rs := reqSummary(req)
 	w.exec.Lock()
+	if g.epoch != w.epoch {
+		// a straggler of the previous scenario (background commit / cleanup of a dead client) that got past the check above
+		// while the world was being reset: its store is gone
+		w.exec.Unlock()
+		return nil, errCrashed
+	}
 	resp, err := func() (resp *tikvrpc.Response, err error) {
 		defer func() {
 			if e := recover(); e != nil {
@@ -632,7 +647,7 @@ func (g *Gate) SendRequest(ctx context.Context, addr string, req *tikvrpc.Reques
 		}()
 		return g.Client.SendRequest(ctx, addr, req, timeout)
 	}()
-	ev := M{"ev": "rpc", "client": g.name, "idx": idx, "cmd": req.Type.String(), "fault": "none", "executed": true, "req": reqSummary(req), "resp": respSummary(req, resp, err), "proj": w.proj()}
+	ev := M{"ev": "rpc", "client": g.name, "idx": idx, "cmd": req.Type.String(), "fault": "none", "executed": true, "req": rs, "resp": respSummary(req, resp, err), "proj": w.proj()}
 	if act.kind != "" {
 		ev["fault"] = act.kind
 	}
